@@ -77,6 +77,9 @@ class C10:
     def judge(self, case, ctx):
         res = Result()
         target, enc = case["target"], case["enc"]
+        if enc not in ("real", "ref") or target not in REF_TARGETS:
+            res.reject = "malformed-case"
+            return res
         case = dict(case)
         case["values"] = [gv.expand(v) for v in case["values"]]
         vt = rm.vtuple(target)
@@ -129,6 +132,11 @@ class C10:
                 raise HarnessError("refmarshal self-check: CPython %s loaded %s, intended %s" % (
                     oracle_v, cn.summary(expected, 200), cn.summary(intended, 200)))
             ctx.extra["oracle_selfchecks"] = ctx.extra.get("oracle_selfchecks", 0) + 1
+            if py2 and _nodes(expected) != _nodes(intended):
+                # Python 2 equates u"" and "", 1 and 1L ...: CPython collapsed set elements / dict keys
+                # that stay distinct for any Python 3 host - no real writer emits such a set
+                res.reject = "py2-stream-with-duplicate-set-elements"
+                return res
 
         # ---- xdis side
         x = rw.xd()
@@ -144,6 +152,8 @@ class C10:
                      "load_code raised %s: %s" % (type(e).__name__, e), {"tb": tb[-1200:]})
             got = None
         if got is not None:
+            if (enc == "real" and case["mver"] < 2) or "textfloat" in features or "textcomplex" in features:
+                expected, got = cn.normalize_nan(expected), cn.normalize_nan(got)
             d = cn.diff(expected, got)
             if d:
                 res.fail("%s|diff|exp=%s|got=%s" % (sigbase, _k(d[1]), _k(d[2])),
@@ -165,6 +175,15 @@ class C10:
         res.sample = {"target": target, "enc": enc, "mver": case["mver"], "payload_hex": rw.hx(payload)[:160],
                       "payload_len": len(payload), "features": sorted(features)[:12]}
         return res
+
+
+def _nodes(t):
+    k = t[0]
+    if k in ("T", "L", "S", "Z"):
+        return 1 + sum(_nodes(x) for x in t[1])
+    if k == "D":
+        return 1 + sum(_nodes(a) + _nodes(b) for a, b in t[1])
+    return 1
 
 
 def _k(summary):
